@@ -1,4 +1,4 @@
-import CollectionsC.Proofs.ArrayMem
+import CollectionsC.Proofs.ArrayUncond
 /-! # C14 (array part) — `CC_Array` uses only the allocator triple it was given
 
 Statements only (helpers: `Proofs/ArrayMem.lean`).  The model's array carries the triple it copied
@@ -108,6 +108,15 @@ theorem iter_uses_only_own_triple (a : Arr) (it : ArrIter) (c : Spec.Seq.Cursor)
 theorem zip_add_uses_only_own_triple (a1 a2 : Arr) (it : ArrIter) (x y : Nat) (m : Mem) (h1 : a1.Inv) (h2 : a2.Inv)
     (ht : a2.triple = a1.triple) : Arr.Foreign a1.triple m (Arr.zipAdd a1 a2 it x y m).2.2.2.2 :=
   (Arr.zipAdd_led a1 a2 it x y m h1 h2 ht).2.1
+
+/-- **mixed triples in a zip**: `cc_array_zip_iter_add` on two arrays of any triples charges each array's
+growth step to that array's own triple — the ledger passes through an intermediate state reached by
+moving only the first array's triple, and from there only the second array's triple moves; neither
+step changes a live-block count -/
+theorem zip_add_charges_each_own_triple (a1 a2 : Arr) (it : ArrIter) (x y : Nat) (m : Mem) (h1 : a1.Inv) (h2 : a2.Inv) :
+    ∃ (m1 : Mem) (r1 r2 : Bool), Arr.Led a1.triple m m1 0 r1 ∧
+      Arr.Led a2.triple m1 (Arr.zipAdd a1 a2 it x y m).2.2.2.2 0 r2 :=
+  Arr.zipAdd_charges_each a1 a2 it x y m h1 h2
 
 /-- **allocator independence, one call**: two ledgers with the same schedule of refusals give the same
 report and the same resulting state (and the same remaining schedule) -/
